@@ -411,6 +411,21 @@ func identity(h HSpec) uint64 {
 	return acc
 }
 
+// sameFloats compares two value specs as numbers, element by element: -0 and +0 are the same
+// bound (the first version compared the printed forms and raised a false alarm when a histogram
+// created with [0 -0 1] was handed the equal spec [-0 0 1] of an earlier histogram).
+func sameFloats(a, b []float64) bool {
+	if len(a) != len(b) {
+		return false
+	}
+	for i := range a {
+		if a[i] != b[i] {
+			return false
+		}
+	}
+	return true
+}
+
 func sameSpec(a, b HSpec) bool {
 	if a.Dur != b.Dur || len(a.V) != len(b.V) || len(a.D) != len(b.D) {
 		return false
@@ -502,7 +517,7 @@ func checkHist(errs *pbt.Errs, name string, h HSpec, events []rec.Event, cached 
 				}
 			} else {
 				sv, ok := e.Spec.(tally.ValueBuckets)
-				if !ok || fmt.Sprint([]float64(sv)) != fmt.Sprint(vs) {
+				if !ok || !sameFloats([]float64(sv), vs) {
 					errs.Addf("%s: specification handed to the reporter is %v, histogram was created with %v", name, e.Spec, vs)
 				}
 			}
